@@ -225,6 +225,18 @@ func (vc *VC) checkPost(st *State, vals []Val, pos token.Pos, ord int) {
 		clause := fmt.Sprintf("%s/ensures%d", vc.fn.Key, en.Ord)
 		vc.emit(st, "postcondition", clause, fmt.Sprintf("ret%d", ord), t, pos, en.Src)
 	}
+	for _, en := range ct.Exits {
+		vc.tolerant, vc.missingNames = true, 0
+		nU := len(vc.unsupported)
+		t := vc.specBool(st, vc.entry, en.Expr, nil, nil)
+		vc.tolerant = false
+		if vc.missingNames > 0 {
+			vc.unsupported = vc.unsupported[:nU]
+			continue // a local it mentions is not in scope at this return
+		}
+		clause := fmt.Sprintf("%s/exit%d", vc.fn.Key, en.Ord)
+		vc.emit(st, "postcondition", clause, fmt.Sprintf("ret%d", ord), t, pos, en.Src)
+	}
 	// frame: declared modifies (checked for heap fields of in-package structs and ghosts)
 	if ct.HasModif {
 		vc.checkFrame(st, pos, ord)
